@@ -9,12 +9,13 @@ EXTENDS Naturals, Sequences, FiniteSets, TLC, Json, Randomization
    Outcome(tagclass) is the documented error of the first failing stage, or "instance".
    Deviation switches (TRUE = before the fix; each refuted by TLC): NoTypeCheck (a non-string tag reaches Split
    and escapes as AttributeError), ImportOnlyNotFound (only ModuleNotFoundError is mapped: an empty module name
-   or a broken module escapes), NoClassCheck (a non-class reaches issubclass and escapes as TypeError).
+   or a broken module escapes), NoClassCheck (a non-class reaches issubclass and escapes as TypeError), MroRegistryLookup (a
+   subclass of a registered type is deserialised by its base's function into an instance of the base class).
  Part 2 (C18): the value grammar  None | bool | int | float | str | uuid | registered third-party type |
    object of class A, B <: A, C <: B (or of a second class named A in another module) with two value fields | list of values;  Tag(v); the round trip through JSON
    text is the identity with exact classes.  TLC enumerates the SHAPES (leaf tokens are concretised by the harness).
  ***************************************************************************************************)
-CONSTANTS Part, MaxDepth, SampleSize, NoTypeCheck, ImportOnlyNotFound, NoClassCheck
+CONSTANTS Part, MaxDepth, SampleSize, NoTypeCheck, ImportOnlyNotFound, NoClassCheck, MroRegistryLookup
 VARIABLES stage, tag, outcome, val
 vars == <<stage, tag, outcome, val>>
 
@@ -22,7 +23,7 @@ TagClasses == {"missing", "null", "empty_string", "zero", "false", "empty_list",
                "true", "number", "list", "dict",
                "no_dot", "leading_dot", "trailing_dot", "double_dot", "unknown_module", "broken_module",
                "module_without_attribute", "attr_function", "attr_module", "attr_typevar",
-               "attr_plain_class", "attr_serializable_class", "attr_registered_class"}
+               "attr_plain_class", "attr_subclass_of_registered", "attr_serializable_class", "attr_registered_class"}
 Falsy == {"missing", "null", "empty_string", "zero", "false", "empty_list", "empty_dict"}
 NonString == {"true", "number", "list", "dict"}
 \* what importlib does with the module part
@@ -37,7 +38,7 @@ Expected(t) == CASE t \in Falsy -> "MissingTypeError"
                  [] t \in NonString \cup {"no_dot"} -> "InvalidTypeFormatError"
                  [] ImportResult(t) # "module" -> "UnknownModuleError"
                  [] t = "module_without_attribute" -> "ClassNotFoundError"
-                 [] t \in {"attr_function", "attr_module", "attr_typevar", "attr_plain_class"} -> "ClassNotDeserializableError"
+                 [] t \in {"attr_function", "attr_module", "attr_typevar", "attr_plain_class", "attr_subclass_of_registered"} -> "ClassNotDeserializableError"
                  [] OTHER -> "instance"
 \* layer I: the pipeline of from_json, one action per stage
 Init == /\ Part = "tag" /\ stage = "Get" /\ tag \in TagClasses /\ outcome = "-" /\ val = <<>>
@@ -54,14 +55,19 @@ GetAttr == stage = "GetAttr" /\ IF tag = "module_without_attribute" THEN Fail("C
 ClassCheck == stage = "ClassCheck" /\ IF tag \in {"attr_function", "attr_module", "attr_typevar"}
                                       THEN (IF NoClassCheck THEN Fail("TypeError") ELSE Fail("ClassNotDeserializableError"))
                                       ELSE Go("Dispatch")
-Dispatch == stage = "Dispatch" /\ IF tag = "attr_plain_class" THEN Fail("ClassNotDeserializableError") ELSE Fail("instance")
+\* a class that is neither a SubclassJSONSerializer nor registered is not deserialisable - also when one of its bases is registered
+\* (MroRegistryLookup: the registry is searched along the MRO and the base's function builds an instance of the BASE class)
+Dispatch == stage = "Dispatch" /\ IF tag = "attr_plain_class" THEN Fail("ClassNotDeserializableError")
+                                  ELSE IF tag = "attr_subclass_of_registered"
+                                  THEN (IF MroRegistryLookup THEN Fail("instance_of_base_class") ELSE Fail("ClassNotDeserializableError"))
+                                  ELSE Fail("instance")
 TagNext == Get \/ TypeCheck \/ Split \/ Import \/ GetAttr \/ ClassCheck \/ Dispatch
 OnlyDocumented == stage = "Done" => outcome \in Documented
 RightOutcome == stage = "Done" => outcome = Expected(tag)
 
 \* ---------------- part 2: value shapes
 Leaves == { <<"none">>, <<"true">>, <<"false">>, <<"int">>, <<"float">>, <<"str">>, <<"uuid">>, <<"date">>, <<"datetime">> }
-ClassesJ == {"A", "B", "C", "A2"}      \* A2 = a class named A in another module
+ClassesJ == {"A", "B", "C", "A2", "It"}      \* A2 = a class named A in another module; It = a subclass of A that is iterable (defines __iter__)
 Mk(t) == IF t[1] = "list0" THEN <<"list", <<>> >>
          ELSE IF t[1] = "list1" THEN <<"list", <<t[2]>> >>
          ELSE IF t[1] = "list2" THEN <<"list", <<t[2], t[3]>> >>
